@@ -118,6 +118,49 @@ def r15_1(ctx):
                                 joined = " ".join(shown)
                                 if "exit_code" in joined and "get_skip_document_code" in joined and "ExitStatus::Code" in joined:
                                     ok, why = True, "position(|o| o.exit_code == Code(skip_document_code)) is Some"
+            # or: on the Some edge of an Option that a scan closure sets only under `exit code == skip code` (`let mut skipped = None;
+            # iterate_divided_output(.., |index, _, exit_code| { if .. exit_code == skip_document_code { skipped = Some(index) } })`)
+            if not ok:
+                from .c16 import _upvar_origin
+                for sb, st in switches(f):
+                    ve, rvv = variant_edges(f, sb)
+                    if ve is None or set(ve) != {"Some", "None"} or rvv["place"]["p"]:
+                        continue
+                    if bb not in set(f.reachable(ve["Some"])) - set(f.reachable(ve["None"])):
+                        continue
+                    flag = rvv["place"]["l"]
+                    for cb in prog.closures_of(f):
+                        ocb = Origins(cb)
+                        somes = [b_ for b_, si_, rv_ in aggregates(cb, "Option", "Some")]
+                        if not somes:
+                            continue
+                        # which upvar is &mut flag ?
+                        cap = None
+                        for bi_, blk_ in enumerate(f.blocks):
+                            for st_ in blk_["stmts"]:
+                                if st_["k"] == "assign" and st_["rv"]["k"] == "agg" and st_["rv"].get("agg") == "closure" and st_["rv"].get("def") == cb.path:
+                                    for idx_, op_ in enumerate(st_["rv"]["ops"]):
+                                        pl_ = op_.get("move") or op_.get("copy")
+                                        d_ = f.single_def(pl_["l"]) if pl_ and not pl_["p"] else None
+                                        if d_ and d_[2] == "assign" and d_[3]["k"] == "ref" and d_[3]["place"]["l"] == flag:
+                                            cap = idx_
+                        if cap is None:
+                            continue
+                        for sb2, st2 in switches(cb):
+                            be2 = bool_edges(cb, sb2)
+                            if be2 is None:
+                                continue
+                            tr = cond_tree(cb, sb2, ocb)
+                            if tr.kind == "bin" and tr.a == "Eq":
+                                txt = tr.show()
+                                for n_ in tr.walk():
+                                    if n_.kind == "field" and str(n_.a).isdigit() and n_.kids and peel(n_.kids[0]).kind == "arg" and peel(n_.kids[0]).a == 1:
+                                        up = _upvar_origin(prog, cb, int(n_.a))
+                                        if up is not None:
+                                            txt += " " + up.show()
+                                if "get_skip_document_code" in txt and any(n_.kind == "arg" and n_.a >= 2 for n_ in tr.walk()):
+                                    if all(b_ in cb.reachable(be2[0]) and b_ not in cb.reachable(0, removed_edges=[(sb2, be2[0])]) for b_ in somes):
+                                        ok, why = True, "scan closure sets the flag only under `exit_code == skip_document_code`"
             ctx.check(ok, "skip-guard:%s#%d" % (f.impl_self.split("::")[-1], k), stmt_loc(f, bb, si),
                       "ExecutionError::Skipped only when the exit code equals the configured skip code (%s)" % why,
                       "ExecutionError::Skipped is constructed without a dominating `exit code == skip_document_code` guard: a document is skipped "
@@ -276,6 +319,26 @@ def r15_4(ctx):
     ctx.check(prog.const("DEFAULT_SKIP_DOCUMENT_CODE").as_int() == 80, "skip-80", "-", "the default skip code is 80 (documented)")
 
 
+def r15_7(ctx):
+    """single-script (Cram) execution learns the per-test-case exit codes only from the divided output. `a test case exited with the skip code => the whole
+    document is skipped, nothing failed` therefore needs the scan of that output before any other verdict about the script: a Timeout result that is
+    returned without looking at the output gathered so far reports a document as failed although one of its test cases had already asked to skip it"""
+    from ..cfgq import aggregates
+    prog = ctx.prog
+    f = prog.impl_fn("BashScriptExecutor", "Executor", "execute_all")
+    scans = [bb for bb, t in f.calls() if (callee_name(t) or "").endswith("iterate_divided_output")]
+    if not scans:
+        raise AnchorError("BashScriptExecutor::execute_all: no iterate_divided_output call")
+    touts = [(bb, si) for bb, si, rv in aggregates(f, "ExecutionError", "Timeout")]
+    if not touts:
+        raise AnchorError("BashScriptExecutor::execute_all: no ExecutionError::Timeout result")
+    for i, (bb, si) in enumerate(touts):
+        ok = any(f.dominates(sb, bb) for sb in scans)
+        ctx.check(ok, "skip-scan-before-timeout#%d" % i, stmt_loc(f, bb, si), "the divided output was scanned for the skip code before this Timeout result",
+                  "the script's Timeout is reported without scanning the output gathered so far for the skip code: a Cram document in which one test case exits with "
+                  "the skip code and a later one hangs is reported as failed (timeout, exit 50); the same document in Markdown mode is skipped (exit 0)")
+
+
 def run(ctx):
     ctx.run_rule("R15.1", "who-may-construct ExecutionError::Skipped: only the executors, only under `exit code == skip code of the test case that ran`; ExitStatus::Skipped never constructed [E-SITE]", r15_1, floor=8)
     ctx.run_rule("R15.2", "TestCaseError::Skipped only in the test command: all test cases in the Skipped arm, the unexecuted remainder in the Timeout arm [E-SITE]", r15_2, floor=3)
@@ -286,3 +349,4 @@ def run(ctx):
                  lambda c: c16._merge_fields(c, c.prog.fn("TestCaseConfig::with_defaults_from"), "TestCaseConfig", only={"skip_document_code"}), floor=1)
     from . import c13
     ctx.run_rule("R15.6", "single-script execution: test cases that disagree on skip_document_code are rejected by compile_testcase (the scan compares every exit code with the one compiled code) (shared with C13 R13.11) [E-PATH]", lambda c: c13.consistency_gates(c, ["skip_document_code"]), floor=1)
+    ctx.run_rule("R15.7", "single-script execution: the skip scan of the divided output precedes the script-level Timeout verdict (known finding F44) [E-PATH]", r15_7, floor=1)
